@@ -51,6 +51,9 @@ namespace {
       const ipr::Region& region(int id) const { return *as<ipr::Region>(id); }
 
       const ipr::Name& fresh_name() { return lex.get_identifier(vh::u8("m" + std::to_string(++counter))); }
+      // every second parameter is unnamed: unnamed parameters of one list share the empty identifier and are still parameters of
+      // their own, each at its own position
+      const ipr::Name& param_name() { return ++counter % 2 ? lex.get_identifier(u8"") : lex.get_identifier(vh::u8("m" + std::to_string(counter))); }
 
       // -- observation of one entity ---------------------------------------------------------------
       Value obs(int id)
@@ -200,13 +203,13 @@ namespace {
          else if (op == "add_param") {
             auto& it = item(a.at(0));
             impl::Parameter* p = nullptr;
-            if (it.c == "Mapping") p = as<impl::Mapping>(a.at(0))->param(fresh_name(), lex.int_type());
-            else if (it.c == "Lambda") p = as<impl::Lambda>(a.at(0))->inputs.add_member(fresh_name(), lex.int_type());
-            else if (it.c == "Requires") p = as<impl::Requires>(a.at(0))->formals.add_member(fresh_name(), lex.int_type());
+            if (it.c == "Mapping") p = as<impl::Mapping>(a.at(0))->param(param_name(), lex.int_type());
+            else if (it.c == "Lambda") p = as<impl::Lambda>(a.at(0))->inputs.add_member(param_name(), lex.int_type());
+            else if (it.c == "Requires") p = as<impl::Requires>(a.at(0))->formals.add_member(param_name(), lex.int_type());
             else {
                auto m = const_cast<ipr::cxx_form::impl::Function_morphism*>(
                   static_cast<const ipr::cxx_form::impl::Function_morphism*>(static_cast<const ipr::cxx_form::Morphism::Function*>(it.raw)));
-               p = m->inputs.add_member(fresh_name(), lex.int_type());
+               p = m->inputs.add_member(param_name(), lex.int_type());
             }
             out.push_back(reg("Parameter", p, nullptr));
          }
